@@ -15,7 +15,7 @@ NOBJ = 6
 NAMES = {"value": "value", "child.value": "child.value", "child:value": "child:value",
          "child.child.value": "child.child.value", "kids.value": "kids.items.value", "kids:value": "kids:items:value",
          "child.kids.value": "child.kids.items.value", "kids.child.value": "kids.items.child.value",
-         "d.value": "d.items.value"}
+         "d.value": "d.items.value", "+tracked.value": "+tracked.value"}
 NH = 3
 
 
